@@ -353,6 +353,11 @@ class Lexer:
 
             elif state == 312:  # hex num second digit
                 tempbuf += ch
+                if not all(c in "0123456789abcdefABCDEF" for c in tempbuf):
+                    raise CklSyntaxError(
+                        f"Invalid hex escape \\x{tempbuf} in string",
+                        SourcePos(fname, line, column)
+                    )
                 token += chr(int(tempbuf, 16))
                 tempbuf = ""
                 state = 3
@@ -390,6 +395,11 @@ class Lexer:
 
             elif state == 412:  # hex num second digit
                 tempbuf += ch
+                if not all(c in "0123456789abcdefABCDEF" for c in tempbuf):
+                    raise CklSyntaxError(
+                        f"Invalid hex escape \\x{tempbuf} in string",
+                        SourcePos(fname, line, column)
+                    )
                 token += chr(int(tempbuf, 16))
                 tempbuf = ""
                 state = 4
@@ -453,6 +463,10 @@ class Lexer:
                     token += ch
                 elif ch in "()[]<>=! \t\n\r+-*/%,;#":
                     here = SourcePos(fname, tline, tcolumn)
+                    if not token.replace("_", ""):
+                        raise CklSyntaxError(
+                            "Hex int literal without digits", here
+                        )
                     token = str(int(token.replace("_", ""), 16))
                     self.tokens.append(Token(token, "int", here))
                     token = ""
@@ -468,6 +482,10 @@ class Lexer:
                     token += ch
                 elif ch in "()[]<>=! \t\n\r+-*/%,;#":
                     here = SourcePos(fname, tline, tcolumn)
+                    if not token.replace("_", ""):
+                        raise CklSyntaxError(
+                            "Binary int literal without digits", here
+                        )
                     self.tokens.append(
                         Token(str(int(token.replace("_", ""), 2)), "int", here)
                     )
